@@ -52,6 +52,8 @@ type World struct {
 	States    map[uint64]struct{}
 	AllConns  []*Conn
 	FaultsOff bool // quiescence phase: no more faults
+	StopParam int  // stop the process at this storage-operation boundary (2i: before op i, 2i+1: after op i; -1 none)
+	StopBase  int  // index of the first storage operation StopParam counts from
 	Budget    int  // remaining fault budget
 
 	Disk   *Disk
@@ -60,7 +62,7 @@ type World struct {
 }
 
 func NewWorld(t *testing.T, tape *Tape, prop, fam string) *World {
-	return &World{T: t, Tape: tape, Prop: prop, Fam: fam, MaxSteps: 30000,
+	return &World{T: t, Tape: tape, Prop: prop, Fam: fam, MaxSteps: 30000, StopParam: -1,
 		Faults: map[string]int{}, Probes: map[string]int{}, hash: 1469598103934665603,
 		actSeq: 1469598103934665603}
 }
@@ -159,6 +161,7 @@ type Sim struct {
 	Done     func() bool
 	Stuck    bool
 	CapHit   bool
+	Stopped  bool // the process was stopped (crash point)
 
 	FinalParks map[string]string // where each goroutine was parked when the loop ended
 	base       time.Duration
@@ -324,7 +327,7 @@ func (s *Sim) loop() {
 		if s.StepHook != nil {
 			s.StepHook()
 		}
-		if s.Done != nil && s.Done() {
+		if s.Stopped || (s.Done != nil && s.Done()) {
 			return
 		}
 		if w.Steps >= w.MaxSteps {
@@ -367,6 +370,9 @@ func (s *Sim) loop() {
 		}
 		s.noteAct(pick)
 		pick.Run()
+		if s.Stopped {
+			return
+		}
 	}
 }
 
